@@ -6,7 +6,8 @@ Require Import WD.Proofs.C11KernelProofs WD.Proofs.C11ReaderProofs.
 
 Definition with_mask (C : cfg) (M : N) : cfg :=
   {| c_recursive := c_recursive C; c_mask := M; c_root := c_root C; c_fix_ignored := c_fix_ignored C;
-     c_fix_movein := c_fix_movein C; c_fix_simulate := c_fix_simulate C; c_faults := c_faults C |}.
+     c_fix_movein := c_fix_movein C; c_fix_simulate := c_fix_simulate C; c_fix_moveout := c_fix_moveout C;
+     c_faults := c_faults C |}.
 
 Section RT.
   Variable C : cfg.
@@ -14,8 +15,9 @@ Section RT.
   Hypothesis HM : c_mask C = M.
   Let C' := with_mask C M'.
 
-  (* twins with nothing unread (the reader is handed the batch separately) *)
-  Definition kw0 (k k' : kst) : Prop := kwt M M' k k' /\ k_queue k = [] /\ k_queue k' = [].
+  (* twins: same watches up to their masks, same counters (the reader never looks at the kernel queue; what it queues
+     itself - the IN_IGNORED of the watches it removes, repair F10 - is tracked separately where it matters) *)
+  Definition kw0 (k k' : kst) : Prop := kwt M M' k k'.
 
   Definition rel3 (a : rstate * kst * list raw) (b : rstate * kst * list raw) : Prop :=
     fst (fst a) = fst (fst b) /\ snd a = snd b /\ kw0 (snd (fst a)) (snd (fst b)).
@@ -34,19 +36,19 @@ Section RT.
     | _, _ => False
     end.
   Proof.
-    intros [T [Q Q']]. unfold add_watch. cbn [C' with_mask c_faults c_mask]. rewrite HM.
+    intros T. unfold add_watch. cbn [C' with_mask c_faults c_mask]. rewrite HM.
     destruct (mem_nat (calls r) (c_faults C)); [exact I|].
     pose proof (kadd_watch_twin M M' k k' t p T) as H.
     destruct (kadd_watch k t p M) as [[k1 wd]|], (kadd_watch k' t p M') as [[k1' wd']|]; try contradiction; [|exact I].
     destruct H as [-> [T1 [E1 E1']]]. split; [reflexivity|]. split; [reflexivity|].
-    split; [exact T1|]. split; congruence.
+    exact T1.
   Qed.
 
   Lemma sim_dirs_twin t root ds : forall r k k' acc, kw0 k k' ->
     rel3 (sim_dirs C r k t root ds acc) (sim_dirs C' r k' t root ds acc).
   Proof.
     induction ds as [|d ds IH]; intros r k k' acc K; cbn [sim_dirs].
-    - repeat split; try reflexivity; apply K.
+    - split; [reflexivity | split; [reflexivity | exact K]].
     - pose proof (add_watch_twin r k k' t (join root d) K) as H.
       destruct (add_watch C r k t (join root d)) as [[[r1 k1] wd]|],
                (add_watch C' r k' t (join root d)) as [[[r1' k1'] wd']|]; try contradiction.
@@ -64,7 +66,7 @@ Section RT.
     orel (simulate C r k t w acc) (simulate C' r k' t w acc).
   Proof.
     induction w as [|[[root ds] fls] w IH]; intros r k k' acc K; cbn [simulate].
-    - repeat split; try reflexivity; apply K.
+    - split; [reflexivity | split; [reflexivity | exact K]].
     - pose proof (sim_dirs_twin t root ds r k k' acc K) as H.
       destruct (sim_dirs C r k t root ds acc) as [[r1 k1] a1], (sim_dirs C' r k' t root ds acc) as [[r1' k1'] a1'].
       destruct H as [H1 [H2 H3]]. cbn [fst snd] in *. subst r1' a1'.
@@ -90,32 +92,58 @@ Section RT.
     snd (ro_move C t r k e wdp) = snd (ro_move C' t r k' e wdp) /\
     kw0 (snd (fst (ro_move C t r k e wdp))) (snd (fst (ro_move C' t r k' e wdp))).
   Proof.
-    intros K. unfold ro_move. cbn [C' with_mask c_recursive c_fix_movein].
-    destruct (is_moved_from (k_mask e)); [repeat split; try reflexivity; apply K|].
-    destruct (is_moved_to (k_mask e)); [|repeat split; try reflexivity; apply K].
+    intros K. unfold ro_move. cbn [C' with_mask c_recursive c_fix_movein c_fix_moveout].
+    destruct (is_moved_from (k_mask e)); [split; [reflexivity | split; [reflexivity | exact K]]|].
+    destruct (is_moved_to (k_mask e)); [|split; [reflexivity | split; [reflexivity | exact K]]].
     set (sp := match k_name e with [] => wdp | _ => join wdp (k_name e) end).
     assert (Hin : forall (b : bool) (ev : raw),
       let X := if b then let '(r', k0) := add_dirs C r k t (sp :: walk_dirs t sp) in (r', k0, ev) else (r, k, ev) in
       let Y := if b then let '(r', k0) := add_dirs C' r k' t (sp :: walk_dirs t sp) in (r', k0, ev) else (r, k', ev) in
       fst (fst X) = fst (fst Y) /\ snd X = snd Y /\ kw0 (snd (fst X)) (snd (fst Y))).
-    { intros b ev. destruct b; cbn zeta; [|repeat split; try reflexivity; apply K].
+    { intros b ev. destruct b; cbn zeta; [|split; [reflexivity | split; [reflexivity | exact K]]].
       destruct (add_dirs_twin t (sp :: walk_dirs t sp) r k k' K) as [H1 H2].
       destruct (add_dirs C r k t (sp :: walk_dirs t sp)) as [r1 k1],
                (add_dirs C' r k' t (sp :: walk_dirs t sp)) as [r1' k1']. cbn [fst snd] in *.
       subst. repeat split; try reflexivity; apply H2. }
     destruct (alookup N.eqb (k_cookie e) (mvf r)) as [msrc|].
-    - destruct (alookup beqb msrc (wfp r)); [repeat split; try reflexivity; apply K|]. apply Hin.
+    - destruct (alookup beqb msrc (wfp r)); [split; [reflexivity | split; [reflexivity | exact K]]|]. apply Hin.
     - apply Hin.
   Qed.
 
   Lemma ro_ignored_twin r e : ro_ignored C r e = ro_ignored C' r e.
   Proof. reflexivity. Qed.
 
-  Lemma read_one_twin t r k k' acc e : kw0 k k' ->
-    orel (read_one C t (r, k, acc) e) (read_one C' t (r, k', acc) e).
+  (* _forget_tree on twins: same keys popped, same watches removed, same IN_IGNORED records queued *)
+  Lemma forget_tree_twin keys p : forall r k k', kw0 k k' ->
+    fst (forget_tree keys p r k) = fst (forget_tree keys p r k') /\
+    kw0 (snd (forget_tree keys p r k)) (snd (forget_tree keys p r k')).
   Proof.
-    intros K. rewrite !read_one_factored.
-    destruct (alookup N.eqb (k_wd e) (pfw r)) as [wdp|]; [|reflexivity].
+    induction keys as [|[q x] keys IH]; intros r k k' K; cbn [forget_tree]; [split; [reflexivity | exact K]|].
+    destruct (beqb q p || starts (p ++ [sep]) q); [|apply IH; exact K].
+    destruct (alookup beqb q (wfp r)) as [wd|]; [|apply IH; exact K].
+    destruct (alookup N.eqb wd (pfw r)) as [q'|]; [|apply IH; exact K].
+    destruct (beqb q' q); [|apply IH; exact K].
+    apply IH. apply krm_watch_kwt. exact K.
+  Qed.
+
+  Lemma settle_twin r k k' e : kw0 k k' ->
+    fst (settle_pending C r k e) = fst (settle_pending C' r k' e) /\
+    kw0 (snd (settle_pending C r k e)) (snd (settle_pending C' r k' e)).
+  Proof.
+    intros K. unfold settle_pending. cbn [C' with_mask c_fix_moveout].
+    destruct (c_fix_moveout C); [|split; [reflexivity | exact K]].
+    destruct (pend r) as [[c p]|]; [|split; [reflexivity | exact K]].
+    destruct (is_moved_to (k_mask e) && N.eqb (k_cookie e) c && amem N.eqb (k_wd e) (pfw r)); [split; [reflexivity | exact K]|].
+    apply forget_tree_twin. exact K.
+  Qed.
+
+  Lemma read_one_body_twin t r k k' acc e : kw0 k k' ->
+    orel (read_one_body C t (r, k, acc) e) (read_one_body C' t (r, k', acc) e).
+  Proof.
+    intros K. rewrite !read_one_body_factored.
+    destruct (alookup N.eqb (k_wd e) (pfw r)) as [wdp|].
+    2:{ cbn [C' with_mask c_fix_moveout]. destruct (c_fix_moveout C); [|reflexivity].
+        split; [reflexivity | split; [reflexivity | exact K]]. }
     destruct (ro_move_twin t r k k' e wdp K) as [H1 [H2 H3]].
     destruct (ro_move C t r k e wdp) as [[r1 k1] ev1], (ro_move C' t r k' e wdp) as [[r1' k1'] ev1'].
     cbn [fst snd] in *. subst r1' ev1'. rewrite <- ro_ignored_twin.
@@ -126,15 +154,23 @@ Section RT.
       destruct (add_watch C r2 k1 t (r_path ev1)) as [[[r3 k3] wd]|],
                (add_watch C' r2 k1' t (r_path ev1)) as [[[r3' k3'] wd']|]; try contradiction.
       + destruct H as [-> [-> K3]]. apply simulate_twin. exact K3.
-      + repeat split; try reflexivity; apply H3.
-    - repeat split; try reflexivity; apply H3.
+      + split; [reflexivity | split; [reflexivity | exact H3]].
+    - split; [reflexivity | split; [reflexivity | exact H3]].
+  Qed.
+
+  Lemma read_one_twin t r k k' acc e : kw0 k k' ->
+    orel (read_one C t (r, k, acc) e) (read_one C' t (r, k', acc) e).
+  Proof.
+    intros K. rewrite !read_one_settle.
+    destruct (settle_twin r k k' e K) as [H1 H2]. rewrite <- H1.
+    apply read_one_body_twin. exact H2.
   Qed.
 
   Theorem read_batch_twin t b : forall r k k' acc, kw0 k k' ->
     orel (read_batch C t (r, k, acc) b) (read_batch C' t (r, k', acc) b).
   Proof.
     induction b as [|e b IH]; intros r k k' acc K; cbn [read_batch].
-    - repeat split; try reflexivity; apply K.
+    - split; [reflexivity | split; [reflexivity | exact K]].
     - pose proof (read_one_twin t r k k' acc e K) as H.
       destruct (read_one C t (r, k, acc) e) as [[[r1 k1] a1]|s], (read_one C' t (r, k', acc) e) as [[[r1' k1'] a1']|s'];
         try contradiction; [|exact H].
@@ -152,7 +188,7 @@ Section RT.
     unfold construct. cbn [C' with_mask c_root c_recursive].
     destruct (fisdir (c_root C) t); [|exact I].
     assert (K0 : kw0 kinit kinit).
-    { split; [|split; reflexivity]. constructor; try reflexivity. intros w []. }
+    { constructor; try reflexivity. intros w []. }
     pose proof (add_watch_twin rinit0 kinit kinit t (c_root C) K0) as H.
     destruct (add_watch C rinit0 kinit t (c_root C)) as [[[r1 k1] wd]|],
              (add_watch C' rinit0 kinit t (c_root C)) as [[[r1' k1'] wd']|]; try contradiction; [|exact I].
